@@ -59,8 +59,11 @@ Definition nist (name : bytes) : option curve_consts :=
   else if bytes_eqb name (bs "P-521") then Some nist_p521
   else None.
 
-(* big-endian octets as an integer (SEC1 2.3.6 / 2.3.8) *)
-Definition zbe (l : bytes) : Z := Z.of_N (be_to_N l).
+(* big-endian octets as an integer (SEC1 2.3.6 / 2.3.8): the value so far times 2^8 plus the next
+   octet (written with a shift: multiplying a 521-bit number by 256 octet after octet is what the
+   spec checker would otherwise spend most of its time on) *)
+Definition zbe_N (l : bytes) : N := fold_left (fun acc b => (N.shiftl acc 8 + b)%N) l 0%N.
+Definition zbe (l : bytes) : Z := Z.of_N (zbe_N l).
 
 (* the base point lies on the curve *)
 Definition on_curve (c : curve_consts) : bool :=
